@@ -1259,6 +1259,11 @@ func (ndb *nodeDB) traverseOrphansWithRootkeyCache(cache *rootkeyCache, prevVers
 				curIter.Next(false)
 			}
 		}
+		// if the current version cannot be read any further, the remaining nodes of the
+		// previous version must not be mistaken for orphans
+		if err := curIter.Error(); err != nil {
+			return err
+		}
 		pNode := prevIter.GetNode()
 
 		if orgNode != nil && bytes.Equal(pNode.hash, orgNode.hash) {
@@ -1273,7 +1278,11 @@ func (ndb *nodeDB) traverseOrphansWithRootkeyCache(cache *rootkeyCache, prevVers
 		}
 	}
 
-	return nil
+	// a node that could not be read ends the traversal early
+	if err := curIter.Error(); err != nil {
+		return err
+	}
+	return prevIter.Error()
 }
 
 // Close the nodeDB.
